@@ -1184,6 +1184,7 @@ private:
 			{
 				ConstRowReference rowRef = *iter;
 				MOMO_CHECK(&rowRef.GetColumnList() == &columnList);
+				rowRef.GetRaw();	// check
 				Raw* raw = ConstRowReferenceProxy::GetRaw(rowRef);
 				if (columnList.GetNumber(raw) != invalidNumber)
 					continue;
@@ -1224,6 +1225,7 @@ private:
 		{
 			ConstRowReference rowRef = *iter;
 			MOMO_CHECK(&rowRef.GetColumnList() == &GetColumnList());
+			rowRef.GetRaw();	// check
 			Raw* raw = ConstRowReferenceProxy::GetRaw(rowRef);
 			if (rawMap.Insert(raw, count).inserted)
 				++count;
@@ -1256,6 +1258,7 @@ private:
 			{
 				ConstRowReference rowRef = *iter;
 				MOMO_CHECK(&rowRef.GetColumnList() == &columnList);
+				rowRef.GetRaw();	// check
 				columnList.SetNumber(ConstRowReferenceProxy::GetRaw(rowRef), invalidNumber);
 			}
 		}
@@ -1280,6 +1283,7 @@ private:
 		{
 			ConstRowReference rowRef = *iter;
 			MOMO_CHECK(&rowRef.GetColumnList() == &GetColumnList());
+			rowRef.GetRaw();	// check
 			rawSet.Insert(ConstRowReferenceProxy::GetRaw(rowRef));
 		}
 		auto rawFilter = [&rawSet] (Raw* raw) noexcept
